@@ -8,17 +8,22 @@
    (any other Exception).  The reject formatter (IlluminaBaseDemultiplexer.demultiplex of the loader's
    own baseDemux -> TaggedRecord header) is the parameter  rejhdr : read -> reason -> hout.
 
-   The loader reproduces the three except arms of the REPAIRED code (fixes/C01-D1.patch):
-     accept  : targetFile.write(records); yield counter + 1
-     reject  : if a reject handle exists: formatted record, or (header not parseable) the raw record with
-               ;RR:reason;Rr:why  -- every record terminated by a newline; any other exception raised
-               while formatting leaves the loop (Crashed)
-     generic : if a reject handle exists: raw record with ;RR:ExceptionName; NOT counted as a yield
-   [c_legacy = true] gives the generic arm of the unrepaired code (nothing written, counter + 1), kept to
-   state what was wrong (C01_legacy_generic_arm_refuted). *)
+   The STRUCTURE of the loop is not written down here: the loader is defined from a value [sh : shape]
+   (Lib/C01Shape.v: which sink each of the three arms of the try statement writes to, under which
+   handle-is-None guard, whether the arm reaches the yield increment, where the increment of processedReadPairs
+   and the strategy loop stand relative to the maxReadPairs test).  tools/c01.py regenerates that value from the
+   current source into Gen/GenLoader.v; Model/C01x.v instantiates the loader with it.  What an arm writes is
+   fixed by the role the translator checks:
+     accept  : the records strategy.demultiplex returned; a write() that raises half-way enters the generic arm
+     reject  : the formatted record, or (header not parseable) the raw record with ;RR:reason;Rr:why -- every
+               record terminated by a newline; any other exception raised while formatting leaves the loop (Crashed)
+     generic : the raw record with ;RR:ExceptionName
+   An exception raised INSIDE an except arm (a write to a handle that is None without a guard) leaves the loop.
+   [repaired_shape] is the loop of the repaired tree (fixes/C01-D1.patch), [legacy_shape] the loop before the repair
+   (generic arm: nothing written, counter + 1), kept to state what was wrong (C01_legacy_generic_arm_refuted). *)
 From Coq Require Import ZArith List Bool.
 Import ListNotations.
-From SCMO Require Import Lib.Val.
+From SCMO Require Import Lib.Val Lib.C01Shape.
 Open Scope Z_scope.
 
 Definition str := list Z.
@@ -61,6 +66,11 @@ Fixpoint read_all (fuel : nat) (files : list (list str)) : list pair :=
 Definition fastq_iter (files : list (list str)) : list pair :=
   read_all (S (length (hd [] files))) files.
 
+(* the k-th record of a mate file / of all mate files; the reader is exhausted at k when some file has no header there *)
+Definition record_at (k : nat) (ls : list str) : read := read_record (skipn (4 * k) ls).
+Definition row (k : nat) (files : list (list str)) : pair := map (record_at k) files.
+Definition exhausted (k : nat) (files : list (list str)) : bool := existsb empty_header (row k files).
+
 (* ------------------------------------------------------------------ strategies and outcomes *)
 (* one record of an accepted list as FastqHandle.write meets it: a_ok = the cell key (per-cell mode) and str(record)
    can be computed; then a_text = str(record), a_cell = f"{bi}.{MX}".  a_ok = false: serialising it raises, a_text =
@@ -84,13 +94,12 @@ Record config := mkConfig {
   c_rejects : bool;      (* rejectHandle is not None *)
   c_sc : bool;           (* FastqHandle(single_cell=True) for the target *)
   c_nh : nat;            (* number of handles of the joint FastqHandles: 2 if pairedEnd else 1 *)
-  c_legacy : bool;       (* generic-exception arm of the unrepaired loader *)
   c_log : bool           (* log_handle is not None: only decides whether the counters / tracebacks are ALSO written to the
                             log; no write to a sink and no counter depends on it (Props: C01_log_independent) *)
 }.
 
 Definition set_log (b : bool) (cfg : config) : config :=
-  mkConfig (c_max cfg) (c_rejects cfg) (c_sc cfg) (c_nh cfg) (c_legacy cfg) b.
+  mkConfig (c_max cfg) (c_rejects cfg) (c_sc cfg) (c_nh cfg) b.
 
 (* one write of one record to one file.  e_pair / e_strat are ghost labels (which input pair and which
    strategy caused the write); the bytes of a file are the concatenation of e_text. *)
@@ -171,39 +180,104 @@ Fixpoint bump (j : nat) (ys : list Z) : list Z :=
   | y :: t => match j with O => (y + 1) :: t | S j' => y :: bump j' t end
   end.
 
+Definition attrErr : str := [65;116;116;114;105;98;117;116;101;69;114;114;111;114].   (* "AttributeError" *)
+
 Section Loader.
+  Variable sh : shape.
   Variable strats : list strategy.
   Variable rejhdr : read -> str -> hout.
   Variable cfg : config.
 
-  (* for strategy in useStrategies: try ... except NonMultiplexable ... except Exception ... *)
+  (* the handle of a sink is not None.  A target handle always exists in the modelled configurations (targetFile=None
+     is the probing mode of the auto-detection, outside the property) *)
+  Definition present (s : sink) : bool := match s with SReject => c_rejects cfg | _ => true end.
+
+  (* <handle of s>.write(recs) for a list of TaggedRecords -> (events, exception raised).
+     FastqHandle.write serialises and writes record by record: a record that cannot be serialised raises after the
+     earlier ones were written.  None.write raises AttributeError unless the statement is guarded. *)
+  Definition write_recs (s : sink) (guarded : bool) (p j : nat) (recs : list arec) : list event * option str :=
+    match s with
+    | SNone => ([], None)
+    | STarget =>
+        match ok_prefix (touched cfg recs) with
+        | (_, None) => (write_target cfg p j recs, None)
+        | (pre, Some kind) => (write_target cfg p j pre, Some kind)
+        end
+    | SReject =>
+        if c_rejects cfg then
+          match ok_prefix (firstn (c_nh cfg) recs) with
+          | (pre, k) => (write_reject cfg p j (map a_text pre), k)
+          end
+        else if guarded then ([], None) else ([], Some attrErr)
+    end.
+
+  (* <handle of s>.write(texts) for a list of strings (the reject records).  A per-cell target handle asks every
+     record for its tags: AttributeError on a string *)
+  Definition write_texts (s : sink) (guarded : bool) (p j : nat) (ts : list str) : list event * option str :=
+    match s with
+    | SNone => ([], None)
+    | STarget =>
+        if c_sc cfg then ([], Some attrErr)
+        else (map (fun mt => mkEv true [] (fst mt) p j (snd mt)) (combine (seq 0 (c_nh cfg)) ts), None)
+    | SReject =>
+        if c_rejects cfg then (write_reject cfg p j ts, None)
+        else if guarded then ([], None) else ([], Some attrErr)
+    end.
+
+  Definition counted (a : arm) (j : nat) (ys : list Z) : list Z := if arm_counts a then bump j ys else ys.
+
+  (* except Exception as e: ... <write the raw records> ... [continue]      -> (trace, yields, left the loop) *)
+  Definition generic_arm (p j : nat) (reads : pair) (kind : str) (tr : list event) (ys : list Z)
+    : list event * list Z * bool :=
+    let g := sh_generic sh in
+    match write_texts (arm_sink g) (arm_guarded g) p j (generic_texts reads kind) with
+    | (evs, None) => (tr ++ evs, counted g j ys, false)
+    | (evs, Some _) => (tr ++ evs, ys, true)
+    end.
+
+  (* except NonMultiplexable as reason: [if handle is not None:] format, write (raw fall-back) ... [continue] *)
+  Definition reject_arm (p j : nat) (reads : pair) (reason : str) (tr : list event) (ys : list Z)
+    : list event * list Z * bool :=
+    let r := sh_reject sh in
+    match arm_sink r with
+    | SNone => (tr, counted r j ys, false)
+    | s =>
+        if arm_guarded r && negb (present s) then (tr, counted r j ys, false)
+        else
+          match reject_texts rejhdr reads reason with
+          | RCrash => (tr, ys, true)
+          | RTexts ts =>
+              match write_texts s (arm_guarded r) p j ts with
+              | (evs, None) => (tr ++ evs, counted r j ys, false)
+              | (evs, Some _) => (tr ++ evs, ys, true)
+              end
+          end
+    end.
+
+  (* one (pair, strategy) step: try: records = strategy.demultiplex(reads); <write> except ... *)
+  Definition step (p j : nat) (reads : pair) (f : strategy) (tr : list event) (ys : list Z)
+    : list event * list Z * bool :=
+    match f reads with
+    | Accept recs =>
+        let a := sh_accept sh in
+        let ys1 := if arm_counts a && sh_count_early sh then bump j ys else ys in
+        match write_recs (arm_sink a) (arm_guarded a) p j recs with
+        | (evs, None) => (tr ++ evs, if arm_counts a && negb (sh_count_early sh) then bump j ys1 else ys1, false)
+        | (evs, Some kind) => generic_arm p j reads kind (tr ++ evs) ys1
+        end
+    | Reject reason => reject_arm p j reads reason tr ys
+    | Raise kind => generic_arm p j reads kind tr ys
+    end.
+
+  (* for strategy in useStrategies: *)
   Fixpoint strat_loop (p : nat) (reads : pair) (j : nat) (ss : list strategy)
            (tr : list event) (ys : list Z) : list event * list Z * bool :=
     match ss with
     | [] => (tr, ys, false)
     | f :: ss' =>
-        match f reads with
-        | Accept recs =>
-            match ok_prefix (touched cfg recs) with
-            | (_, None) => strat_loop p reads (S j) ss' (tr ++ write_target cfg p j recs) (bump j ys)
-            | (pre, Some kind) =>
-                (* targetFile.write raised after writing pre: the generic-exception arm *)
-                if c_legacy cfg then strat_loop p reads (S j) ss' (tr ++ write_target cfg p j pre) (bump j ys)
-                else strat_loop p reads (S j) ss'
-                       (tr ++ write_target cfg p j pre ++
-                        (if c_rejects cfg then write_reject cfg p j (generic_texts reads kind) else [])) ys
-            end
-        | Reject reason =>
-            if c_rejects cfg then
-              match reject_texts rejhdr reads reason with
-              | RTexts ts => strat_loop p reads (S j) ss' (tr ++ write_reject cfg p j ts) ys
-              | RCrash => (tr, ys, true)
-              end
-            else strat_loop p reads (S j) ss' tr ys
-        | Raise kind =>
-            if c_legacy cfg then strat_loop p reads (S j) ss' tr (bump j ys)
-            else strat_loop p reads (S j) ss'
-                   (if c_rejects cfg then tr ++ write_reject cfg p j (generic_texts reads kind) else tr) ys
+        match step p j reads f tr ys with
+        | (tr', ys', true) => (tr', ys', true)
+        | (tr', ys', false) => strat_loop p reads (S j) ss' tr' ys'
         end
     end.
 
@@ -213,18 +287,27 @@ Section Loader.
 
   Record result := mkRes { res_trace : list event; res_yields : list Z; res_processed : Z; res_crashed : bool }.
 
-  (* for p, reads in enumerate(FastqIterator(fastqfiles...)): processedReadPairs = p + 1 ... *)
+  (* for reads in FastqIterator(...): the body holds the increment of processedReadPairs, the strategy loop and the
+     maxReadPairs test; [proc] = processedReadPairs before the iteration *)
   Fixpoint pair_loop (p : nat) (pairs : list pair) (tr : list event) (ys : list Z) (proc : Z) : result :=
     match pairs with
     | [] => mkRes tr ys proc false
     | reads :: rest =>
-        let proc' := Z.of_nat p + 1 in
-        match strat_loop p reads 0 strats tr ys with
-        | (tr', ys', true) => mkRes tr' ys' proc' true
-        | (tr', ys', false) =>
-            if stop_after proc' then mkRes tr' ys' proc' false
-            else pair_loop (S p) rest tr' ys' proc'
-        end
+        let proc1 := if sh_incr_before_test sh then proc + 1 else proc in
+        if sh_strat_before_test sh then
+          match strat_loop p reads 0 strats tr ys with
+          | (tr', ys', true) => mkRes tr' ys' proc1 true
+          | (tr', ys', false) =>
+              if stop_after proc1 then mkRes tr' ys' proc1 false
+              else pair_loop (S p) rest tr' ys' (proc + 1)
+          end
+        else
+          if stop_after proc1 then mkRes tr ys proc1 false
+          else
+            match strat_loop p reads 0 strats tr ys with
+            | (tr', ys', true) => mkRes tr' ys' proc1 true
+            | (tr', ys', false) => pair_loop (S p) rest tr' ys' (proc + 1)
+            end
     end.
 
   Definition loader (pairs : list pair) : result :=
@@ -307,8 +390,7 @@ Definition dec_rejhdr (v : Val) : read -> str -> hout :=
   lookup_hout (map (fun e => (dec_read (nthV 0 e), dec_str (nthV 1 e), dec_hout (nthV 2 e))) (getL v)).
 
 Definition dec_config (v : Val) : config :=
-  mkConfig (getOptZ (nthV 0 v)) (getB (nthV 1 v)) (getB (nthV 2 v)) (Z.to_nat (getZ (nthV 3 v))) (getB (nthV 4 v))
-           (getB (nthV 5 v)).
+  mkConfig (getOptZ (nthV 0 v)) (getB (nthV 1 v)) (getB (nthV 2 v)) (Z.to_nat (getZ (nthV 3 v))) (getB (nthV 4 v)).
 
 (* the files that received at least one record, in order of first write, with their bytes *)
 Definition file_key := (bool * str * nat)%type.
@@ -335,16 +417,5 @@ Definition enc_result (r : result) : Val :=
 (* precondition of the theorems, evaluated on a run: no reject formatting crashed *)
 Definition dec_files (v : Val) : list (list str) := map (fun f => map dec_str (getL f)) (getL v).
 
-(* input: (config files strategies rejhdr)
-   mode 0: the whole run: (crashed processed yields files)
-   mode 1: precondition: the run did not crash
-   mode 3: the reader alone: the records FastqIterator yields *)
-Definition run_C01 (mode : Z) (v : Val) : Val :=
-  match mode with
-  | 0 => enc_result (demultiplex (map dec_strategy (getL (nthV 2 v))) (dec_rejhdr (nthV 3 v))
-                                 (dec_config (nthV 0 v)) (dec_files (nthV 1 v)))
-  | 1 => ofB (negb (res_crashed (demultiplex (map dec_strategy (getL (nthV 2 v))) (dec_rejhdr (nthV 3 v))
-                                             (dec_config (nthV 0 v)) (dec_files (nthV 1 v)))))
-  | 3 => VL (map (fun p => VL (map enc_read p)) (fastq_iter (dec_files (nthV 1 v))))
-  | _ => bad
-  end.
+(* run_C01 (the modes of the extracted binary) is in Model/C01x.v: it instantiates the loader with the regenerated
+   shape Gen.GenLoader.loader_shape and adds the boolean specification of Model/C01Spec.v *)
